@@ -74,6 +74,17 @@ pub struct Scn {
     /// application free data of the pack (24 bytes, zero padded)
     #[serde(default)]
     pub free_data: Vec<u8>,
+    /// hooked build only: log the pipeline hooks (dispatch, take, done, counter, write, address) during creation
+    #[serde(default)]
+    pub trace_hooks: bool,
+}
+
+#[cfg(jubako_verif)]
+fn pipeline_tracer(name: &'static str, id: u64, a: u64, b: u64) {
+    if name.starts_with('P') {
+        let th = std::thread::current().name().unwrap_or("main").to_string();
+        emit(json!({"ev":"Hook","name":name,"id":id,"a":a,"b":b,"thread":th}));
+    }
 }
 
 pub fn free24(v: &[u8]) -> [u8; 24] {
@@ -270,7 +281,13 @@ pub fn run(s: &Scn) {
         json!({"ev":"New","comp":s.comp,"level":s.level,"creator":s.creator,"cached":s.cached,
                 "concat":s.concat,"workers":workers,"maxQueue":2*workers}),
     );
+    #[cfg(jubako_verif)]
+    if s.trace_hooks {
+        jbk::verif::set_tracer(Some(pipeline_tracer));
+    }
     let created = catch(|| create(s));
+    #[cfg(jubako_verif)]
+    jbk::verif::set_tracer(None);
     let addrs = match created {
         Ok(Ok(a)) => {
             emit(json!({"ev":"Finalize","ok":true,"file":out_path(s)}));
